@@ -37,8 +37,13 @@ Layouts == { {A}, {A, B}, {B}, {}, {A, C}, {D}, {A, D} }
 Starts  == { <<>>, A, B, <<"crs", "rules">>, <<"crs", "sub">>, <<"crs", "sub", "inner", "deep", "er">>,
              <<"other">>, <<"other", "x">>, C, C \o <<"rules">>, <<"crs", "regex-assembly", "include">>, D, D \o <<"util", "a">> }
 
+\* start directories whose LAST component is a symbolic link (crs/lnk -> other/x, other/lnk2 -> crs/sub):
+\* the root is searched among the ancestors of the -d argument AS WRITTEN, links are not resolved first
+LinkStarts == { <<"crs", "lnk">>, <<"other", "lnk2">> }
 Init == /\ stage = 0 /\ arg = ""
-        /\ IF Mode = "root" THEN lay \in Layouts /\ start \in Starts /\ withD \in BOOLEAN
+        /\ IF Mode = "root" THEN /\ lay \in Layouts
+                                 /\ \/ start \in Starts /\ withD \in BOOLEAN
+                                    \/ start \in LinkStarts /\ withD = TRUE
            ELSE lay = {} /\ start = <<>> /\ withD = FALSE
 Next == /\ Mode \in {"args", "stdin"} /\ stage < Len(Pieces)
         /\ \E p \in Pieces[stage + 1] : arg' = arg \o p /\ stage' = stage + 1
